@@ -8,4 +8,5 @@ INVARIANTS
   Symmetric
   ClosedFormNu2
   OneTwoIdentity
+  DesignedBracket
 CHECK_DEADLOCK FALSE
